@@ -25,16 +25,17 @@ theorem applyOverlays_rel {B : Mode → Color → Color → Color} (hB : BOk B) 
       (applySource_rel hst hr hsrc (hB e.mode) (fun ch => by ring) false)
       (fun e' he' => hok e' (List.mem_cons_of_mem _ he'))
 
-theorem applyStrokeFx_rel {B : Mode → Color → Color → Color} (hB : BOk B) (V bbox : Rect) (x y : Int)
-    {st : PState} {σ : SState} (hst : Inv st) (hr : Rel st σ) (ss : List StrokeFx) (hok : ∀ s ∈ ss, StrokeFxOk s) :
-    Rel (applyStrokeFx B V bbox x y st ss) (specStrokeFx .pdf17 B V bbox x y σ ss) ∧
-      Inv (applyStrokeFx B V bbox x y st ss) := by
+theorem applyStrokeFx_rel {B : Mode → Color → Color → Color} (hB : BOk B) (V bbox : Rect) (x y : Int) {lop : Rat}
+    (hl : Unit01 lop) {st : PState} {σ : SState} (hst : Inv st) (hr : Rel st σ) (ss : List StrokeFx)
+    (hok : ∀ s ∈ ss, StrokeFxOk s) :
+    Rel (applyStrokeFx B V bbox x y lop st ss) (specStrokeFx .pdf17 B V bbox x y lop σ ss) ∧
+      Inv (applyStrokeFx B V bbox x y lop st ss) := by
   induction ss generalizing st σ with
   | nil => exact ⟨hr, hst⟩
   | cons s ss ih =>
     have hs := hok s (List.mem_cons_self ..)
     have hsrc : SrcOk (pasteAt V bbox x y s.color black) (pasteAt V bbox x y (s.shape V) 0)
-        (pasteAt V bbox x y (s.shape V) 0 * s.opacity) := strokeFxSrc_ok hs V bbox x y
+        (pasteAt V bbox x y (s.shape V) 0 * (s.opacity * lop)) := strokeFxSrc_ok hs V bbox x y hl
     unfold applyStrokeFx specStrokeFx
     exact ih (applySource_inv hst hsrc false)
       (applySource_rel hst hr hsrc (hB s.mode) (fun ch => by ring) false)
@@ -63,7 +64,7 @@ theorem finishFx_rel {B : Mode → Color → Color → Color} (hB : BOk B) (forc
     intro ch
     rw [hP ch]; ring
   obtain ⟨h2, h2inv⟩ := applyOverlays_rel hB V pr.bbox x y b0 b1 b2 h1inv h1 fx.overlays hf.overlays
-  exact (applyStrokeFx_rel hB V pr.bbox x y h2inv h2 fx.strokeFx hf.strokeFx).1
+  exact (applyStrokeFx_rel hB V pr.bbox x y hp.opacity h2inv h2 fx.strokeFx hf.strokeFx).1
 
 /-- the vector stroke: the colour the code's sub-compositor hands back is the published group colour with the
 backdrop removed, taken with the object's alpha -/
